@@ -126,10 +126,29 @@ use unowned::Unowned;
 // has an aliasing copy in `names`, and no other copies elsewhere. All
 // `Unowned<str>` values in `names` are either a copy of a value in `index` or
 // are the result of `Unowned::from("")`.
-#[derive(Clone)]
 pub struct VarNameMap {
     names: Vec<Unowned<str>>,
     index: HashMap<Unowned<str>, VarNo>,
+}
+
+impl Clone for VarNameMap {
+    fn clone(&self) -> Self {
+        // We must not simply copy the `Unowned<str>` values: both maps would
+        // refer to the same allocations and free them when dropped. Instead,
+        // we create a fresh `Box<str>` for every non-empty name.
+        let mut names = Vec::with_capacity(self.names.len());
+        let mut index = HashMap::with_capacity(self.index.len());
+        for (var, name) in self.names.iter().enumerate() {
+            if name.is_empty() {
+                names.push("".into());
+            } else {
+                let name: Unowned<str> = Box::<str>::from(&**name).into();
+                index.insert(name, var as VarNo);
+                names.push(name);
+            }
+        }
+        Self { names, index }
+    }
 }
 
 impl Drop for VarNameMap {
